@@ -316,11 +316,22 @@ def _provenance(h, defs, local, cyc, SELECT, seen, cr, root):
     return None
 
 
+def r12e(ctx, rep, cr):
+    rep.rule('R12e', 'only the holder releases: every removal from LockManager.locks is reachable only through the true edge of '
+                     'KeyLock.tx_id == <the releasing transaction>, or removes keys selected from the table itself in the same critical '
+                     'section (by handle, by expiry, orphan sweep). Keys taken from the per-transaction list tx_locks can be stale: try_lock '
+                     'lets a transaction take over an expired lock without pruning the old holder\'s list')
+    fns = {n: f for n, f in cr.fns.items() if n.startswith('tensor_chain::distributed_tx::')}
+    n = lib.holder_only_release(rep, 'R12e', fns, 'LockManager.locks', 'KeyLock.tx_id', '2PC key lock')
+    rep.floor('R12e', 'removals from LockManager.locks', n, 4)
+
+
 def run(ctx, rep):
     cr = ctx.crate('tensor_chain')
     r12a(ctx, rep, cr)
     r12b(ctx, rep, cr)
     r12c(ctx, rep, cr)
     r12d(ctx, rep, cr)
+    r12e(ctx, rep, cr)
     if ctx.tier == 'thorough':
         witness.run(rep, 'R12a', ['LockTablesArePrivate'])
